@@ -760,6 +760,8 @@ func (e *Engine) index(in *ssa.Index, x, iv Value) Value {
 			e.rtPanic(in, fmt.Sprintf("index out of range [%d] with length %d", idx, len(xx)))
 		}
 		return int64(xx[idx])
+	case *Rope:
+		return e.ropeByte(in, xx, iv)
 	}
 	panic(pathEnd{"unsupported", fmt.Sprintf("Index on %T", x)})
 }
